@@ -248,7 +248,14 @@ def h_bifurc(c):
                         hi = mid
                 for off in (0.0, 1e-12, -1e-12, 1e-10, -1e-10, 1e-8, -1e-8, 1e-6, -1e-6):
                     cv = base + (0.5 * (lo + hi) + off) * numpy.eye(d + 1)[j]
-                    out.append(enc(numpy.array(mono(cv), dtype=float)))
+                    if c.get("laurent"):
+                        # the Laurent list of suc (p + eps/2 x^d), i.e. the F handed to the completion
+                        m = numpy.array(mono(cv), dtype=float)
+                        m = numpy.concatenate([m, numpy.zeros(d + 1 - len(m))])
+                        m[d] += eps / 2
+                        out.append(enc(numpy.asarray(poly2laurent(suc * m), dtype=float)))
+                    else:
+                        out.append(enc(numpy.array(mono(cv), dtype=float)))
                 break
         if len(out) >= int(c.get("want", 18)):
             break
